@@ -121,6 +121,9 @@ func (f *Fam) Gen(r *rand.Rand, i int) string {
 	if r.Intn(10) == 0 {
 		return genAmsg(r)
 	}
+	if r.Intn(10) == 0 {
+		return genAstruct(r)
+	}
 	if r.Intn(12) == 0 { // the text form of a coin, well formed and not
 		if r.Intn(4) == 0 {
 			return "coin.text " + coin()
@@ -273,6 +276,8 @@ func (f *Fam) Exec(op string) (obs string, fails []common.Failure) {
 		return "ok", nil
 	case "amsg":
 		return execAmsg(w), nil
+	case "astruct":
+		return execAstruct(w), nil
 	case "uv":
 		n, _ := strconv.ParseUint(w[1], 10, 64)
 		bz := amino.MustMarshalBinaryBare(n) // bare uint64 = uvarint
@@ -460,8 +465,8 @@ func (f *Fam) Class(op, obs string) string {
 	if w[0] == "reg" {
 		return ""
 	}
-	if w[0] == "amsg" {
-		return "amsg/" + w[1]
+	if w[0] == "amsg" || w[0] == "astruct" {
+		return w[0] + "/" + w[1]
 	}
 	o := "ok"
 	if strings.HasPrefix(obs, "err") || strings.HasPrefix(obs, "panic") {
